@@ -9,7 +9,12 @@
 3. harness/c04_algebra.cpp runs the REAL combinators over the same domains and tables for lvalue,
    const lvalue and rvalue arguments and records {f, cat, a, tables, res, calls}.
 4. spec/AlgebraJudge.tla (TLC) recomputes res and calls from the operators of Algebra.tla and judges
-   every record."""
+   every record.
+5. Robustness (Clarification 2): whatever the tree under test does to the harness is a verdict, not an
+   infrastructure failure - a unit that does not compile is rebuilt in parts down to single record kinds
+   (in scope: VIOLATION <kind>:does-not-compile, observed only: OBSERVATION), a run that crashes / hangs /
+   leaks is repeated kind by kind, an escaping exception is a record of its own, and only kinds named by
+   the statement (InScope in the judge) can yield a VIOLATION."""
 import json
 import os
 import re
@@ -71,11 +76,99 @@ GUARDS = [
     ("assign_keeps_index", "variant4", "LawVariantAssign"),
     ("dynamic_cast_last", "variant4", "LawDynamicCast"),
     ("do_drops_first", "do", "LawDo"),
+    # round 3 audit
+    ("index_zero_based", "variant4", "LawVarAccessors"),
+    ("maybe_multi_default", "functor", "LawMaybeMultiVariadic"),
 ]
 
 
-def build():
-    return vlib.build_harness("c04_algebra", ["c04_algebra.cpp"], libs=())
+def _tla_set(name):
+    """the string set `name == {...}` of spec/AlgebraJudge.tla (single source of truth for the record kinds
+    and for which of them are in scope)"""
+    txt = open(os.path.join(vlib.SPEC, JUDGE + ".tla")).read()
+    m = re.search(r"^%s == \{([^}]*)\}" % name, txt, re.M)
+    if not m:
+        raise vlib.Infra("cannot find the set %s in spec/%s.tla" % (name, JUDGE))
+    return re.findall(r'"(\w+)"', m.group(1))
+
+
+KNOWN = _tla_set("Known")
+IN_SCOPE = set(_tla_set("InScope"))
+HARNESS_SRC = ["c04_algebra.cpp"]
+
+
+def build(kinds=None, name="c04_algebra"):
+    """kinds=None: every record kind in one translation unit; else only the named kinds are compiled
+    (and only their fcppt headers included)"""
+    defs = () if kinds is None else tuple(["C04_SELECT=1"] + ["C04_K_%s=1" % k for k in sorted(kinds)])
+    return vlib.build_harness(name, HARNESS_SRC, libs=(), defs=defs)
+
+
+def _first_error(msg):
+    for l in msg.splitlines():
+        if "error:" in l or " error " in l:
+            return l.strip()[:400]
+    return (msg.splitlines() or ["?"])[0][:400]
+
+
+def observe(ctx, kind, why, detail, record=None):
+    """something outside the statement of C04 disagrees / does not build / crashes: never a violation"""
+    obs = ctx.extra.setdefault("observations", {"count": 0, "by_kind": {}, "samples": []})
+    obs["count"] += 1
+    key = "%s:%s" % (kind, why)
+    obs["by_kind"][key] = obs["by_kind"].get(key, 0) + 1
+    if len(obs["samples"]) < 20 and obs["by_kind"][key] <= 2:
+        obs["samples"].append({"kind": kind, "disagrees_in": why.split("+"), "detail": detail[:400], "record": record})
+        print("OBSERVATION (outside the statement of C04, not a violation): %s: %s: %s" % (kind, why, detail[:300]))
+
+
+def try_build(kinds, name):
+    try:
+        return build(kinds, name), None
+    except vlib.Infra as e:
+        msg = str(e)
+        if "compile failed" not in msg and "link failed" not in msg:
+            raise
+        return None, msg
+
+
+def build_units(ctx):
+    """-> list of (binary, kinds or None).  Normally one binary with every kind.  If that translation unit
+    does not compile against the tree under test (Clarification 2: never an infrastructure failure as long as
+    the harness skeleton itself builds): the in-scope kinds and the observed-only kinds are built separately,
+    and a part that still does not compile is built kind by kind.  A kind named by the statement whose driver
+    (well-formed calls that compile against the unchanged tree) no longer compiles is a VIOLATION
+    `C04:<kind>:does-not-compile`; an observed-only kind becomes an OBSERVATION; all others are still run."""
+    binary, err = try_build(None, "c04_algebra")
+    if binary:
+        return [(binary, None)]
+    vlib.log("the harness does not compile as one unit against this tree (%s); building its parts" % _first_error(err))
+    skeleton, err0 = try_build([], "c04_skeleton")
+    if not skeleton:
+        raise vlib.Infra("the harness skeleton (no combinator driven) does not compile:\n%s" % err0[-3000:])
+    ctx.extra["harness_build"] = {"one_unit": False, "first_error": _first_error(err), "kinds_not_compiling": []}
+    inscope = [k for k in KNOWN if k in IN_SCOPE]
+    ext = [k for k in KNOWN if k not in IN_SCOPE]
+    units = []
+    parts = vlib.parallel(lambda t: try_build(t[1], t[0]), [("c04_inscope", inscope), ("c04_ext", ext)], workers=2)
+    for (nm, kinds), (b, e) in zip([("c04_inscope", inscope), ("c04_ext", ext)], parts):
+        if b:
+            units.append((b, kinds))
+            continue
+        singles = vlib.parallel(lambda k: try_build([k], "c04_k_" + k), kinds, workers=8)
+        for k, (bk, ek) in zip(kinds, singles):
+            if bk:
+                units.append((bk, [k]))
+                continue
+            ctx.extra["harness_build"]["kinds_not_compiling"].append({"kind": k, "first_error": _first_error(ek)})
+            if k in IN_SCOPE:
+                ctx.reject("C04:%s:does-not-compile" % k,
+                           "the calls of %s that the harness makes (well-formed, they compile against the unchanged tree) "
+                           "no longer compile: %s" % (k, _first_error(ek)),
+                           {"f": k, "seed": ctx.seed, "tier": ctx.tier, "compile": True, "first_error": _first_error(ek)})
+            else:
+                observe(ctx, k, "does-not-compile", _first_error(ek))
+    return units
 
 
 def laws_of(group):
@@ -120,75 +213,161 @@ def signature(b):
 
 
 TAG_RE = re.compile(r'"t":("?\w+"?)')
+HEAD_RE = re.compile(r'\{"f":"(\w+)","cat":"([^"]*)","a":')
+RC_KIND = {66: "sanitizer", 67: "crash", 68: "hang", 124: "timeout"}
 
 
 def klass(line):
     """(combinator, categories, tags of the value arguments, number of continuation calls)"""
     pre, _, post = line.partition(',"res":')
-    m = re.match(r'\{"f":"(\w+)","cat":"([^"]*)","a":', pre)
+    m = HEAD_RE.match(pre)
     a = pre[m.end():]
     for k in (',"d":', ',"tf":', ',"i":', ',"st":', ',"x":', ',"types":', ',"pm":'):
         a = a.split(k)[0]
     return (m.group(1), m.group(2), tuple(TAG_RE.findall(a)), post.count('"fn":'))
 
 
-def judge_file(ctx, path, what, rc, out, seed, tier):
-    """stream the log into chunks, judge them with parallel single-worker TLC processes"""
-    chunks = []   # (path, first line number (0-based), nlines)
+def complete_record(line):
+    """A complete record starts with {"f":"<kind>","cat":..., and ends with ,"calls":[...]} after a "res" (or
+    "exc") field.  The flushed prefix of an aborted call can by accident end in '}' (a default value such as
+    {"t":"none"} is the last thing written before the call) - it has no "calls" field."""
+    if not line.endswith("]}\n") or not HEAD_RE.match(line):
+        return False
+    return (',"res":' in line or ',"exc":"' in line) and ',"calls":[' in line
+
+
+def read_log(path):
+    """-> (complete lines, truncated prefix of the aborted call or None).  Crash markers written by the signal
+    handlers and partial lines are not records."""
+    lines = []
     tail = None
-    n = 0
-    cur = None
-    curn = 0
-    with open(path, "rb") as f:
+    try:
+        f = open(path, "rb")
+    except OSError:
+        return lines, tail
+    with f:
         for raw in f:
-            if not raw.endswith(b"\n"):
-                tail = raw.decode(errors="replace")
-                break
             line = raw.decode(errors="replace")
-            if not line.startswith('{"f":') or not line.rstrip().endswith("}"):
-                tail = line  # crash marker or truncated record
-                continue
-            if cur is None or curn >= CHUNK:
-                if cur:
-                    cur.close()
-                p = "%s.part%d" % (path, len(chunks))
-                cur = open(p, "w")
-                chunks.append([p, n, 0])
-                curn = 0
-            cur.write(line)
-            curn += 1
-            chunks[-1][2] += 1
+            if complete_record(line):
+                lines.append(line)
+            elif line.startswith('{"f":"'):
+                tail = line.rstrip("\n")  # the flushed prefix of the call that did not return
+    return lines, tail
+
+
+def harness_failure(ctx, kind, rc, out, tail, what, seed, tier):
+    """a crash / sanitizer report / hang / timeout of a harness run is caused by the code under test: a
+    VIOLATION if the combinator being driven is named by the statement, else an observation"""
+    why = RC_KIND.get(rc, "exit%d" % rc)
+    m = re.search(r'"f":"(\w+)"', tail or "")
+    op = kind or (m.group(1) if m else "?")
+    san = re.search(r"(ERROR: \w+Sanitizer: [^\n]*|runtime error: [^\n]*)", out or "")
+    detail = "%s during %s (%s): %s; call: %s" % (why, op, what, san.group(1) if san else (out or "")[-300:].strip(), (tail or "?")[:300])
+    if op in IN_SCOPE or op == "?" or op not in KNOWN:
+        ctx.reject("C04:%s:%s" % (op, why), detail, {"f": op, "seed": seed, "tier": tier, "partial_line": tail})
+    else:
+        observe(ctx, op, why, detail)
+
+
+def drive(ctx, units, seed, tier, only=None):
+    """Run the harness units; -> list of complete record lines.  A unit that does not exit 0 is re-run kind by
+    kind (the random tables of a kind do not depend on the other kinds), so that one aborting combinator
+    neither hides the records of the others nor the other aborting ones."""
+    tmo = 1500 if tier == "thorough" else 240
+    lines = []
+    nrun = [0]
+
+    def run_one(binary, kind, timeout):
+        nrun[0] += 1
+        path = os.path.join(ctx.workdir, "records_%d_%s.ndjson" % (nrun[0], kind or "all"))
+        args = ["record", path, seed, tier] + ([kind] if kind else [])
+        rc, out = vlib.run_harness(binary, args, timeout=timeout)
+        ls, tail = read_log(path)
+        try:
+            os.unlink(path)
+        except OSError:
+            pass
+        return rc, out, ls, tail
+
+    for binary, kinds in units:
+        wanted = [k for k in (kinds if kinds is not None else KNOWN) if only is None or k == only]
+        if not wanted:
+            continue
+        single = wanted[0] if (only is not None or len(wanted) == 1) else None
+        rc, out, ls, tail = run_one(binary, single, tmo)
+        if rc == 0 and tail is None:
+            lines += ls
+            continue
+        if single is not None:
+            lines += ls
+            harness_failure(ctx, single, rc, out, tail, "recorded call", seed, tier)
+            continue
+        vlib.log("harness run ended with rc=%d (%s); re-running kind by kind" % (rc, RC_KIND.get(rc, "?")))
+        ctx.extra.setdefault("harness_runs_failed", []).append({"rc": rc, "partial_line": (tail or "")[:200]})
+        seen_failure = False
+        results = vlib.parallel(lambda k: run_one(binary, k, 120 if tier == "quick" else 900), wanted, workers=6)
+        for k, (rck, outk, lsk, tailk) in zip(wanted, results):
+            lines += lsk
+            if rck != 0 or tailk is not None:
+                seen_failure = True
+                harness_failure(ctx, k, rck, outk, tailk, "recorded call, run of this kind alone", seed, tier)
+        if not seen_failure:
+            # only the complete run fails (e.g. a leak report at exit): attribute it to the call it stopped in
+            harness_failure(ctx, None, rc, out, tail, "recorded call, complete run", seed, tier)
+    return lines
+
+
+def judge_lines(ctx, lines, what, seed, tier):
+    """judge the records with parallel single-worker TLC processes.  Records of observed-only kinds go into
+    chunks of their own: the judge keeps the first 300 rejected records of a chunk verbatim, and observations
+    must not use up that room.  -> (number judged, set of kinds with a rejection or observation)"""
+    touched = set()
+    groups = {True: [], False: []}
+    n = 0
+    for line in lines:
+        m = HEAD_RE.match(line)
+        kind = m.group(1)
+        if ',"res":' not in line:
+            # an exception escaped from the driven call (see record_guarded in the harness)
+            touched.add(kind)
             n += 1
+            ex = re.search(r',"exc":"([^"]*)"', line).group(1)
+            detail = "%s: an exception escaped from the call (%s); record: %s" % (what, ex, line[:400].rstrip())
+            if kind in IN_SCOPE or kind not in KNOWN:
+                ctx.reject("C04:%s:exception" % kind, detail, {"f": kind, "seed": seed, "tier": tier, "record_text": line[:2000]})
+            else:
+                observe(ctx, kind, "exception", detail)
+            continue
+        groups[kind in IN_SCOPE or kind not in KNOWN].append(line)
+        try:
             ctx.count_class(klass(line))
-            if n in (1, 5000, 60000):
+        except (AttributeError, ValueError):
+            pass
+        n += 1
+        if n in (1, 5000, 60000):
+            try:
                 ctx.sample(json.loads(line))
-    if cur:
-        cur.close()
-    if rc != 0:
-        kind = {66: "sanitizer", 67: "crash", 68: "hang", 124: "timeout"}.get(rc, "exit%d" % rc)
-        m = re.search(r'"f":"(\w+)"', tail or "")
-        op = m.group(1) if m else "?"
-        san = re.search(r"(ERROR: \w+Sanitizer: [^\n]*|runtime error: [^\n]*)", out)
-        ctx.reject("C04:%s:%s" % (op, kind), "%s during %s (%s): %s" % (kind, op, what, san.group(1) if san else out[-300:]),
-                   {"f": op, "seed": seed, "tier": tier, "partial_line": tail})
-    elif tail is not None:
-        raise vlib.Infra("harness log %s ends with an incomplete record although the harness exited 0" % path)
+            except ValueError:
+                pass
+    chunks = []
+    for key in (True, False):
+        g = groups[key]
+        for i in range(0, len(g), CHUNK):
+            p = os.path.join(ctx.workdir, "judge_%s_%d.ndjson" % ("in" if key else "obs", i // CHUNK))
+            with open(p, "w") as f:
+                f.writelines(g[i:i + CHUNK])
+            chunks.append((p, g[i:i + CHUNK]))
 
     def one(ch):
-        p, first, cnt = ch
+        p, part = ch
         r = vlib.tlc(JUDGE, JUDGE_CFG, workers=1, env={"TRACE": p}, timeout=1500, xmx="3g", tag="AlgebraJudge")
         v = vlib._verdict_lines(r.out)
         if "VERDICT" not in v:
             raise vlib.Infra("judge gave no verdict on %s (rc=%d):\n%s" % (p, r.rc, "\n".join(r.out.splitlines()[-30:])))
         vd = v["VERDICT"][-1]
-        if vd["n"] != cnt:
-            raise vlib.Infra("judge consumed %d of %d records of %s" % (vd["n"], cnt, p))
-        bad = []
-        if vd["bad"]:
-            lines = open(p).read().splitlines()
-            for b in vd["bad"]:
-                bad.append((b, lines[b["l"] - 1]))
-        return bad, vd["nbad"], r.generated
+        if vd["n"] != len(part):
+            raise vlib.Infra("judge consumed %d of %d records of %s" % (vd["n"], len(part), p))
+        return [(b, part[b["l"] - 1]) for b in vd["bad"]], vd["nbad"], r.generated
     res = vlib.parallel(one, chunks, workers=8)
     nbad = 0
     for bad, nb, gen in res:
@@ -197,23 +376,20 @@ def judge_file(ctx, path, what, rc, out, seed, tier):
         for b, line in bad:
             if any(w.startswith("HARNESS") for w in b["why"]):
                 raise vlib.Infra("harness emitted a record outside the model's vocabulary / precondition: %s" % line[:300])
-            rec = json.loads(line)
+            try:
+                rec = json.loads(line)
+            except ValueError:
+                rec = {"text": line[:2000]}
+            touched.add(b["op"])
             if "OBSERVED-ONLY" in b["why"]:
                 # a record kind outside the statement of C04: judged, never a violation
                 why = sorted(w for w in b["why"] if w != "OBSERVED-ONLY")
-                obs = ctx.extra.setdefault("observations", {"count": 0, "by_kind": {}, "samples": []})
-                obs["count"] += 1
-                key = "%s:%s" % (b["op"], "+".join(why))
-                obs["by_kind"][key] = obs["by_kind"].get(key, 0) + 1
-                if len(obs["samples"]) < 20 and obs["by_kind"][key] <= 2:
-                    obs["samples"].append({"kind": b["op"], "disagrees_in": why, "record": rec})
-                    print("OBSERVATION (outside the statement of C04, not a violation): %s disagrees with the model in %s: %s"
-                          % (b["op"], ",".join(why), line[:300]))
+                observe(ctx, b["op"], "+".join(why), "disagrees with the model in %s: %s" % (",".join(why), line[:300].rstrip()), rec)
                 continue
             ctx.reject(signature(b), "%s: the model cannot explain %s [%s] (%s); record: %s" % (
-                what, b["op"], rec.get("cat", ""), ",".join(sorted(b["why"])), line[:500]),
+                what, b["op"], rec.get("cat", ""), ",".join(sorted(b["why"])), line[:500].rstrip()),
                 {"f": b["op"], "seed": seed, "tier": tier, "record": rec})
-    for p, _, _ in chunks:
+    for p, _ in chunks:
         try:
             os.unlink(p)
         except OSError:
@@ -222,30 +398,33 @@ def judge_file(ctx, path, what, rc, out, seed, tier):
     ctx.traces_validated += n
     ctx.extra["records_rejected"] = ctx.extra.get("records_rejected", 0) + nbad
     ctx.extra.setdefault("observations", {"count": 0, "by_kind": {}, "samples": []})
-    return n
+    return n, touched
 
 
-def corruption_selftest(ctx, path):
+def corruption_selftest(ctx, lines, skip_kinds):
     """Binding demonstration on the recorded log itself: for every record kind take a real record and
     (a) replace its result by the result of another record of the same kind, (b) drop its continuation
-    calls / append a duplicate of the first one.  The judge must reject every corrupted record."""
+    calls / append a duplicate of the first one.  The judge must reject every corrupted record.
+    Kinds with a rejected record or an observation in this run are left out: if the tree under test gets a
+    result wrong, exchanging results can produce a correct record."""
     first = {}
     other = {}
     withcalls = {}
-    with open(path) as f:
-        for line in f:
-            m = re.match(r'\{"f":"(\w+)"', line)
-            if not m:
-                continue
-            k = m.group(1)
-            pre, _, post = line.rstrip("\n").partition(',"res":')
-            res, _, calls = post.rpartition(',"calls":')
-            if k not in first:
-                first[k] = (pre, res, calls)
-            elif k not in other and res != first[k][1]:
-                other[k] = res
-            if k not in withcalls and calls != "[]}":
-                withcalls[k] = (pre, res, calls)
+    for line in lines:
+        m = HEAD_RE.match(line)
+        if not m or ',"res":' not in line:
+            continue
+        k = m.group(1)
+        if k in skip_kinds:
+            continue
+        pre, _, post = line.rstrip("\n").partition(',"res":')
+        res, _, calls = post.rpartition(',"calls":')
+        if k not in first:
+            first[k] = (pre, res, calls)
+        elif k not in other and res != first[k][1]:
+            other[k] = res
+        if k not in withcalls and calls != "[]}":
+            withcalls[k] = (pre, res, calls)
     corrupted = []
     for k, (pre, res, calls) in first.items():
         if k in other:
@@ -255,6 +434,8 @@ def corruption_selftest(ctx, path):
         one = calls[1:-2].split("},{")[0]
         one = one if one.endswith("}") else one + "}"
         corrupted.append((k, "call-duplicated", pre + ',"res":' + res + ',"calls":[' + one + "," + calls[1:]))
+    if not corrupted:
+        return
     cpath = os.path.join(ctx.workdir, "corrupted.ndjson")
     with open(cpath, "w") as f:
         for _, _, l in corrupted:
@@ -277,19 +458,25 @@ def corruption_selftest(ctx, path):
 
 
 def run(ctx):
+    if set(IN_SCOPE) - set(KNOWN):
+        raise vlib.Infra("InScope names kinds that are not Known: %s" % sorted(set(IN_SCOPE) - set(KNOWN)))
     model_check(ctx)
-    binary = build()
-    path = os.path.join(ctx.workdir, "records.ndjson")
-    rc, out = vlib.run_harness(binary, ["record", path, ctx.seed, ctx.tier], timeout=1500)
-    if rc == 0:
-        corruption_selftest(ctx, path)
-    n = judge_file(ctx, path, "recorded call", rc, out, ctx.seed, ctx.tier)
-    try:
-        os.unlink(path)
-    except OSError:
-        pass
-    if n < (1000000 if ctx.tier == "thorough" else 100000):
-        raise vlib.Infra("harness produced only %d records" % n)
+    units = build_units(ctx)
+    one_unit = len(units) == 1 and units[0][1] is None
+    lines = drive(ctx, units, ctx.seed, ctx.tier)
+    n, touched = judge_lines(ctx, lines, "recorded call", ctx.seed, ctx.tier)
+    trouble = bool(ctx.violations) or ctx.extra.get("observations", {}).get("count", 0) > 0 or not one_unit \
+        or bool(ctx.extra.get("harness_runs_failed")) or bool(ctx.known_hits)
+    # the self-test of the judge needs records that are right: kinds untouched by any verdict of this run
+    corruption_selftest(ctx, lines, touched)
+    if not trouble:
+        # an undisturbed run must contain every record kind and the usual volume (a silent loss of coverage is
+        # a harness bug); after a crash / compile failure / rejection the verdicts above stand for themselves
+        seen = set(HEAD_RE.match(l).group(1) for l in lines)
+        if set(KNOWN) - seen:
+            raise vlib.Infra("the harness produced no record of kind(s) %s" % sorted(set(KNOWN) - seen))
+        if n < (1000000 if ctx.tier == "thorough" else 100000):
+            raise vlib.Infra("harness produced only %d records" % n)
     ctx.exhaustive = False
     ctx.rule = ("one record = one call of a real combinator: all values of optional<D>, either<D,D>, variant<D,D,D> "
                 "(D = {0,1,2}) x ALL unary continuation tables ([D->D] 27, [D->Opt D] 64, [D->Either] 216, [D->bool] 8) "
@@ -313,13 +500,11 @@ def run(ctx):
 
 def replay(ctx, payload):
     pl = payload["payload"]
-    binary = build()
-    path = os.path.join(ctx.workdir, "replay.ndjson")
     seed = pl.get("seed", payload.get("seed", 1))
     tier = pl.get("tier", payload.get("tier", "quick"))
-    args = ["record", path, seed, tier]
-    if pl.get("f") and pl["f"] != "?":
-        args.append(pl["f"])
-    rc, out = vlib.run_harness(binary, args, timeout=1500)
-    judge_file(ctx, path, "replay of %s" % pl.get("f"), rc, out, seed, tier)
+    kind = pl.get("f") if pl.get("f") in KNOWN else None
+    units = build_units(ctx)   # rejects again what does not compile
+    if kind is None or any(kinds is None or kind in kinds for _, kinds in units):
+        lines = drive(ctx, units, seed, tier, only=kind)
+        judge_lines(ctx, lines, "replay of %s" % (kind or "every combinator"), seed, tier)
     ctx.rule = "replay: every record of the saved combinator with the saved seed and tier"
